@@ -225,7 +225,7 @@ theorem okInv_step {c : ICfg} (hok : ∀ w i, c.env w i = .ok) {s s' : IT} (h : 
   | merge sh q hres hq => exact ⟨h.alive, h.wk, h.clean, h.quiet, h.done, h.bat⟩
   | mergeStop q hres hq => exact ⟨h.alive, h.wk, h.clean, h.quiet, h.done, h.bat⟩
   | env ws' hw =>
-    rcases hw with ⟨w, hw⟩ | ⟨w, hw⟩
+    rcases hw with ⟨w, hw⟩ | ⟨w, hw, _⟩
     · rw [crashW_none_of_ok hok] at hw; cases hw
     · rw [rejoinW_none_of_alive h.alive] at hw; cases hw
 
